@@ -164,10 +164,16 @@ def check(ax, case, rec):
         if axi:
             vals[2] = 0.0
         scale = c["load"] + 2.5
+        first = vals if not c["preload"] else rng.uniform(-1, 1, ncomp) * np.array([1, 1, 0 if axi else 1])[:ncomp]
         if ax == "gravity":
-            it = fem.SolidBodyGravity(fc, gravity=vals.tolist(), density=scale)
+            it = fem.SolidBodyGravity(fc, gravity=first.tolist(), density=scale)
         else:
-            it = fem.SolidBodyForce(fc, values=vals.tolist(), scale=scale)
+            it = fem.SolidBodyForce(fc, values=first.tolist(), scale=scale)
+        if c["preload"]:
+            # values changed through update() (what a Step does for ramped items): density / scale must be kept
+            it.assemble.vector(fc)
+            it.update(vals.tolist())
+            rec.label("updated-values")
         r = np.asarray(it.assemble.vector(fc).toarray()).ravel()
         n0 = fc.fields[0].values.size
         f = r[:n0].reshape(-1, fc.fields[0].dim)
@@ -184,7 +190,13 @@ def check(ax, case, rec):
         pts = np.unique(rng.choice(len(X), size=min(4, len(X)), replace=False))
         d = fc.fields[0].dim
         vals = rng.uniform(-1, 1, (len(pts), d))
-        it = fem.PointLoad(fc, points=pts, values=vals, axisymmetric=axi)
+        if c["preload"]:
+            it = fem.PointLoad(fc, points=pts, values=rng.uniform(-1, 1, (len(pts), d)), axisymmetric=axi)
+            it.assemble.vector(fc)
+            it.update(vals)
+            rec.label("updated-values")
+        else:
+            it = fem.PointLoad(fc, points=pts, values=vals, axisymmetric=axi)
         r = np.asarray(it.assemble.vector(fc).toarray()).ravel()
         ref = np.zeros((len(X), d))
         ref[pts] = vals * (2 * np.pi * X[pts, 1:2] if axi else 1.0)
